@@ -12,3 +12,12 @@ func VerifPipeIDInUse(id uint32) bool { return core.VerifPipeIDInUse(id) }
 
 // VerifPipesListed re-exports the core accessor.
 func VerifPipesListed(s Socket) int { return core.VerifPipesListed(s) }
+
+// VerifPipeIDSetNext re-exports the core hook.
+func VerifPipeIDSetNext(next uint32) { core.VerifPipeIDSetNext(next) }
+
+// VerifPipeIDGet re-exports the core hook.
+func VerifPipeIDGet() uint32 { return core.VerifPipeIDGet() }
+
+// VerifPipeIDFree re-exports the core hook.
+func VerifPipeIDFree(id uint32) { core.VerifPipeIDFree(id) }
